@@ -273,9 +273,10 @@ def run(ctx):
         ctx.add("evaluations", n)
         ctx.add("distinct_nontrivial", nt)
     ctx.cov["datasets_with_graph_name_as_term"] = len(nat)
-    # one earlier write before the round trip, over every ordered pair of the 2-triple (thorough: 3-triple) sub-universe
+    # one earlier write (of a dataset of the 2-triple sub-universe) before the round trip of every dataset of the 2-triple (thorough: 3-triple) sub-universe
     small = list(universe(3 if thorough else 2))
-    items = [(k, a, b) for k in PRE_KINDS for a in small for b in small if b and (a or k == "dataset")]
+    pre_u = list(universe(2))
+    items = [(k, a, b) for k in PRE_KINDS for a in pre_u for b in small if b and (a or k == "dataset")]
     res = R.pmap(_hist_batch, [(sh, FORMATS) for sh in R.shards(items, ctx.jobs * 8)], ctx.jobs)
     for viols, n in res:
         ctx.extend(viols)
@@ -350,6 +351,6 @@ META = {
             "across graphs and empty default graphs - through every quad-capable format; the parsed quads must equal the original up to one "
             "blank-node bijection that also maps graph names. RDF Patch diffs are produced for every ordered pair of a sub-universe and applied.",
     "note": "Small scope: 4-5 triples, 3 graph names; HexTuples modulo simple literal = xsd:string; empty named graphs not compared. One earlier write (another dataset, a named graph on its own, a plain Graph "
-            "with the same name) before the round trip: every ordered pair of the 2/3-triple sub-universe in the worker, 216 histories each in an interpreter of its own.",
+            "with the same name) before the round trip: every (2-triple dataset written earlier, 2/3-triple dataset round-tripped) pair in the worker, 216 histories each in an interpreter of its own.",
     "technique": "exhaustive enumeration of dataset assignments through serialize+parse with a quad isomorphism oracle",
 }
